@@ -333,6 +333,9 @@ type PlatCase struct {
 	Quiet bool `json:"quiet_variant,omitempty"`
 	// Grants: the device answers "enable" by granting without asking.
 	Grants bool `json:"grants,omitempty"`
+	// PlainOnOpen (network type): the definition keeps its steps under the plain on-open list only
+	// (no network-on-open); they must run once.
+	PlainOnOpen bool `json:"plain_on_open,omitempty"`
 }
 
 // SysCase is a session over the real system transport with the stand-in binary.
@@ -424,6 +427,8 @@ func genCase(r *rand.Rand, i int) Case {
 			Accept: r.Intn(4) != 0, Seg: genSeg(r)}
 		if r.Intn(3) == 0 {
 			c.Plat.Quiet, c.Plat.Grants = true, r.Intn(3) != 0
+		} else if c.Plat.DriverType == "network" && r.Intn(2) == 0 {
+			c.Plat.PlainOnOpen = true
 		}
 		c.Secondary = decorate(r, c.Secondary, "\n")
 	default:
@@ -687,7 +692,11 @@ func platformYAML(c *Case) []byte {
 			onOpen = append(onOpen, map[string]interface{}{"operation": "acquire-priv", "target": "privilege-exec"},
 				map[string]interface{}{"operation": "driver.send-command", "command": "terminal length 0"})
 		}
-		def["network-on-open"] = onOpen
+		if p.PlainOnOpen {
+			def["on-open"] = onOpen[:4]
+		} else {
+			def["network-on-open"] = onOpen
+		}
 	} else {
 		def["on-open"] = onOpen
 	}
@@ -717,6 +726,9 @@ func runPlatform(c *Case, m *Monitor) session {
 	dev := escDevice(p.Host, "\r\n", devVariant, deviceSecret, "show clock!")
 	conn := devsim.NewConn(dev, devsim.Config{Seg: p.Seg, KeepData: true})
 	defer conn.Abandon()
+	if p.PlainOnOpen {
+		s.kind = "platform-plain-on-open-" + p.DriverType
+	}
 	if p.Quiet {
 		s.kind = "platform-quiet-variant-" + p.DriverType
 		s.nonSecret = "host '" + p.Host + "'"
@@ -905,6 +917,12 @@ func Run(mc mon.Case) mon.Result {
 	if len(s.argv) > 0 {
 		obs["child_argv_inspected"] = 1
 	}
+	if c.Plat != nil && c.Plat.PlainOnOpen {
+		obs["network_platforms_with_plain_on_open_only"] = 1
+		if s.credWrites > 1 {
+			obs["plain_on_open_secret_lines_beyond_one"] += int64(s.credWrites - 1)
+		}
+	}
 	if c.Plat != nil && c.Plat.Quiet {
 		obs["platform_variants_switching_on_open_off"] = 1
 	}
@@ -1047,6 +1065,12 @@ func init() {
 				c.Plat = &PlatCase{Host: hosts[i%len(hosts)], DriverType: []string{"generic", "network"}[i%2], Follow: i%4 >= 2, Accept: true, Seg: genSeg(r),
 					Quiet: true, Grants: i%6 != 5}
 				cs = append(cs, mon.MkCase(fmt.Sprintf("c11/variant/%02d", i), c))
+			}
+			for i := 0; i < 9; i++ {
+				c := Case{Kind: "platform", Level: []string{"debug", "info", "critical"}[i%3], Family: secretFamilies[i%len(secretFamilies)]}
+				c.Secondary = decorate(r, genSecret(r, c.Family), "\n")
+				c.Plat = &PlatCase{Host: hosts[i%len(hosts)], DriverType: "network", Accept: i%4 != 3, Seg: genSeg(r), PlainOnOpen: true}
+				cs = append(cs, mon.MkCase(fmt.Sprintf("c11/plain-on-open/%02d", i), c))
 			}
 			cs = append(cs, genFaultCases(r, tier)...)
 			cs = append(cs, genRefusalCases(r)...)
